@@ -13,6 +13,7 @@ from lib.common import *
 from props import evalh
 
 MIR = None
+PAIR_FUEL = 25000
 X, Y, Z = z3.Int('x'), z3.Int('y'), z3.Int('z')
 
 def struct_eq(r1, r2):
@@ -35,18 +36,42 @@ def struct_eq(r1, r2):
         return z3.And(*[struct_eq(a, b) for a, b in zip(r1.fields, r2.fields)]) if r1.fields else z3.BoolVal(True)
     return z3.BoolVal(r1 is r2 or r1 == r2)
 
+def elem(v, rep):
+    """the value of an input: an integer in either representation, or a float determined by the integer input
+    ('Half': the double v + 0.5, 'Flt': the double v; |v| <= 2^40 is assumed for these, so the value is an exact double)"""
+    if rep in ('Small', 'Big'): return evalh.num(v, rep)
+    val = z3.ToReal(v) + (z3.RealVal('1/2') if rep == 'Half' else 0)
+    return Adt('Obj', 'Num', [Adt('NNum', 'Float', [F64(3, val, z3.BoolVal(False))])])
+def rep_pre(v, rep): return [] if rep in ('Small', 'Big') else [v >= -(1 << 40), v <= (1 << 40)]
 def env_for(E, spec):
-    """spec: dict(reps=(repx, repy, repz), registered=(...), structs={name: Adt}, stubs=(...))"""
+    """spec: dict(reps=(repx, repy, repz), registered=(...), structs={name: Adt}, stubs=(...), xs_kind=list|stream|vector|dict)"""
     rx, ry, rz = spec.get('reps', ('Small', 'Small', 'Small'))
-    binds = {'x': evalh.num(X, rx), 'y': evalh.num(Y, ry), 'z': evalh.num(Z, rz),
-             'xs': evalh.olist([evalh.num(X, rx), evalh.num(Y, ry), evalh.num(Z, rz)][:spec.get('n', 3)])}
-    return evalh.top_env(binds, builtins=spec.get('builtins', ('+', '-', '*', '<', '>', '<=', '>=', '==', '!=', 'print', 'append')), E=E, registered=spec.get('registered', ()), structs=spec.get('structs'))
+    items = [elem(X, rx), elem(Y, ry), elem(Z, rz)][:spec.get('n', 3)]
+    xs = evalh.olist(items); kind = spec.get('xs_kind', 'list')
+    if kind == 'stream':          # `stream(xs)`: a WrappedVec over the same elements, at position 0
+        xs = Adt('Obj', 'Seq', [Adt('Seq', 'Stream', [RcV(RcObj(Adt('WrappedVec', None, [RcV(RcObj(Seq(items))), z3.IntVal(0)])))])])
+    elif kind == 'vector':
+        xs = Adt('Obj', 'Seq', [Adt('Seq', 'Vector', [RcV(RcObj(Seq([o.fields[0] for o in items])))])])
+    elif kind == 'dict':          # a set of the (pairwise distinct: precondition) elements
+        from mirsym.hashmap import hm
+        xs = Adt('Obj', 'Seq', [Adt('Seq', 'Dict', [RcV(RcObj(hm([Tup([Adt('ObjKey', None, [o]), Adt('Obj', 'Null', [])]) for o in items]))), opt()])])
+    binds = {'x': elem(X, rx), 'y': elem(Y, ry), 'z': elem(Z, rz), 'xs': xs}
+    return evalh.top_env(binds, builtins=spec.get('builtins', ('+', '-', '*', '<', '>', '<=', '>=', '==', '!=', 'print', 'append')), E=E, registered=spec.get('registered', ()), structs=spec.get('structs'), real_cmp=spec.get('real_cmp', False))
 
-def lit(v, rep): return fmt_int(v) if rep == 'Small' else fmt_big(v)
+def lit(v, rep):
+    if rep == 'Small': return fmt_int(v)
+    if rep == 'Big': return fmt_big(v)
+    f = v + 0.5 if rep == 'Half' else float(v)
+    return f'({f!r})'
 def shape_pair(prop, item, ob):
     name, a_src, b_src, spec = item
     E = evalh.eng(MIR); astA, astB = evalh.parse_programs([a_src, b_src])
+    # a path of these programs takes 1-4 thousand basic blocks; one that is still running after PAIR_FUEL is a non-termination
+    # candidate: it is replayed natively under a time limit and reported as a hang only if the real interpreter hangs too
+    E.FUEL = spec.get('fuel', PAIR_FUEL); E.stop_on_fuel = True
     pre = [in_i64(X), in_i64(Y), in_i64(Z)] + list(spec.get('pre', ()))
+    for v_, r_ in zip((X, Y, Z), spec.get('reps', ('Small', 'Small', 'Small'))): pre += rep_pre(v_, r_)
+    if spec.get('xs_kind') == 'dict': pre += [[], [], [X != Y], [X != Y, X != Z, Y != Z]][spec.get('n', 3)]
     def runner(ast):
         def run():
             E.assume(*pre); E.log.clear()
@@ -57,6 +82,9 @@ def shape_pair(prop, item, ob):
     def replay(model):
         x, y, z = mval(model, X), mval(model, Y), mval(model, Z)
         xs = '[' + ', '.join([lit(x, rx), lit(y, ry), lit(z, rz)][:n]) + ']'
+        if spec.get('xs_kind') == 'stream': xs = f'stream({xs})'
+        elif spec.get('xs_kind') == 'vector': xs = f'vector({xs})' if n else 'vector([])'
+        elif spec.get('xs_kind') == 'dict': xs = f'set({xs})'
         obs = spec.get('observe', 'r__')          # what of the result is compared natively (e.g. also is_big for representation-sensitive ties)
         def wrap(src): return f'(\\x, y, z, xs -> (out := []; print := \\v -> (out append= v; null); r__ := try ({src}) catch e__ -> "raised"; [{obs}, out]))({lit(x, rx)}, {lit(y, ry)}, {lit(z, rz)}, {xs})'
         return {'program': f'{wrap(a_src)} == {wrap(b_src)}', 'expect': {'equals': 'OK 1'}}
@@ -64,6 +92,7 @@ def shape_pair(prop, item, ob):
     for pa in PA + PB:
         ob.paths += 1
         if pa[1] == 'panic': ob.panic(f'{name}: panic-free', pa[0], pa[2], replay=replay, cls=f'{prop}/equivalence {name}/panic', prefer=pref)
+        elif pa[1] == 'fuel': ob.panic(f'{name}: terminates', pa[0], f'still running after {E.FUEL} basic blocks ({pa[2]})', replay=replay, cls=f'{prop}/equivalence {name}/hang', prefer=pref)
         elif pa[1] != 'ok': ob.missing(name, f'{pa[1]}: {pa[2]}')
     for pcA, kA, rA, lgA in PA:
         if kA != 'ok': continue
@@ -145,7 +174,112 @@ def family_C13(E=None):
             mk(f'max keeps the first of tied maxima n={n} {reps}', 'max(xs)', 'best := xs[0]; for (e <- xs[1:]) (if (e > best) best = e); best', n, reps, observe='[r__, is_big(r__)]')
             mk(f'min keeps the first of tied minima n={n} {reps}', 'min(xs)', 'best := xs[0]; for (e <- xs[1:]) (if (e < best) best = e); best', n, reps, observe='[r__, is_big(r__)]')
     return P
-FAMILIES = {'C04': family_C04, 'C17': family_C17, 'C13': family_C13}
+
+# ------------------------------------------------------------------------------------------------ further families (round 7)
+ALLB = ('+', '-', '*', '<', '>', '<=', '>=', '==', '!=', 'print', 'append')
+def family_C01():
+    """value semantics at statement level: a mutation statement == the explicit functional update, every copy untouched"""
+    sp = dict(registered=('len',))
+    P = [('swap of two indexed slots (also the same slot, also out of range)', 'a := [10, 20, 30]; swap a[x], a[y]; a', 'a := [10, 20, 30]; t := a[x]; u := a[y]; a[x] = u; a[y] = t; a', sp),
+         ('swap of a variable with itself', 'a := [x]; swap a, a; a', '[x]', sp),
+         ('swap inside nested lists', 'a := [[x], [y, z]]; swap a[0][0], a[1][1]; a', '[[z], [y, x]]', sp),
+         ('swap of a slot with a variable', 'a := [x, y]; b := z; swap a[1], b; [a, b]', '[[x, z], y]', sp),
+         ('a function argument is a copy', 'a := [x, y]; g := \\b -> (b[0] = z; b); r := g(a); [a, r]', '[[x, y], [z, y]]', sp),
+         ('a container element is a copy', 'a := [x]; b := [a, a]; a[0] = y; [a, b]', '[[y], [[x], [x]]]', sp),
+         ('a copy then op-assign on the copy', 'a := [x]; b := a; b append= y; a[0] = z; [a, b]', '[[z], [x, y]]', sp),
+         ('a closure result is a copy', 'a := [x]; f := \\ -> a; b := f(); a[0] = y; c := f(); [b, c]', '[[x], [y]]', sp),
+         ('consume leaves null and moves the value', 'a := [x, y]; b := consume a; [a, b]', '[null, [x, y]]', sp),
+         ('pop returns the last and shortens only the target', 'a := [x, y, z]; b := a; r := pop a; [r, a, b]', '[z, [x, y], [x, y, z]]', sp),
+         ('remove at any index', 'a := [10, 20, 30, 40]; b := a; r := remove a[x]; [r, a, b]',
+          'a := [10, 20, 30, 40]; i := if (x < 0) x + 4 else x; r := a[x]; c := []; j := 0; for (e <- a) (if (j != i) c append= e; j += 1); [r, c, a]', sp),
+         ('index assignment at any index', 'a := [10, 20, 30]; b := a; a[x] = y; [a, b]',
+          'a := [10, 20, 30]; i := if (x < 0) x + 3 else x; q := a[x]; c := []; j := 0; for (e <- a) (c append= (if (j == i) y else e); j += 1); [c, a]', sp),
+         ('nested index op-assign', 'a := [[x], [y]]; b := a; a[1][0] += z; [a, b]', '[[[x], [y + z]], [[x], [y]]]', sp),
+         ('every-slice assignment', 'a := [x, y, z]; b := a; every a[0:2] = 7; [a, b]', '[[7, 7, z], [x, y, z]]', sp),
+         ('every-slice op-assign', 'a := [x, y, z]; b := a; every a[1:] *= 2; [a, b]', '[[x, y * 2, z * 2], [x, y, z]]', sp),
+         ('dict value is a copy', 'd := {1: [x]}; e := d; e[1] append= y; d[2] = z; [d[1], e[1], len(d), len(e)]', '[[x], [x, y], 2, 1]', sp),
+         ('defaulted dict: op-assign through a missing key', 'd := {: [x]}; d[1] append= y; d[2] append= z; [d[1], d[2], d[3], len(d)]', '[[x, y], [x, z], [x], 2]', sp),
+         ('defaulted dict: pop through a missing key', 'd := {: [x, y]}; r := pop d[1]; [r, d[1], d[2], len(d)]', '[y, [x], [x, y], 1]', sp),
+         ('destructuring swap', 'a := [x, y]; a[0], a[1] = a[1], a[0]; a', '[y, x]', sp)]
+    return P
+def family_C05():
+    """`for` clauses, switch arms, splats with defaults: the construct == its expansion into simpler constructs (those that the
+    reference interpreter of props/C05.py decides)"""
+    P = []
+    def mk(name, a, b, n=3): P.append((name, a, b, dict(n=n, registered=('len',))))
+    for n in (0, 2, 3):
+        mk(f'declaration clause n={n}', 'for (e <- xs; w := [e]) yield [w, e]', 'r := []; for (e <- xs) (w := [e]; r append= [w, e]); r', n)
+        mk(f'declaration clause shadows the iteration variable n={n}', 'for (e <- xs; e := [e, 1]) yield e', 'r := []; for (e <- xs) r append= [e, 1]; r', n)
+        mk(f'guard clause n={n}', 'for (a <- xs; if a > 0) yield a', 'r := []; for (a <- xs) (if (a > 0) r append= a); r', n)
+        mk(f'index iteration n={n}', 'for (i, e <<- xs) yield [i, e]', 'r := []; i := 0; for (e <- xs) (r append= [i, e]; i += 1); r', n)
+        if n < 3:          # two nested clauses over 3 elements fork 177 ways on the capacity model of the result vector: n = 2 is the bound
+            mk(f'two iteration clauses n={n}', 'for (a <- xs; b <- xs) yield [a, b]', 'r := []; for (a <- xs) (for (b <- xs) r append= [a, b]); r', n)
+            mk(f'guard between clauses n={n}', 'for (a <- xs; if a > 0; b <- xs) yield [a, b]', 'r := []; for (a <- xs) (if (a > 0) (for (b <- xs) r append= [a, b])); r', n)
+    mk('declaration clauses do not leak into the enclosing scope', 't := 0; for (w := x) t += w; for (w := y) t += w; t', 'x + y')
+    mk('a declaration clause does not touch an outer variable of the same name', 'w := x; for (w := y) null; w', 'x')
+    mk('a declaration clause is gone after the loop', 'for (w := x) null; w', 'throw 1')
+    mk('the iteration variable is gone after the loop', 'for (e <- xs) null; e', 'throw 1')
+    mk('switch arms bind in their own scope', 'w := y; r := (switch (x) case 0 -> w case w -> w + 1); [r, w]', '[(if (x == 0) y else x + 1), y]')
+    mk('switch takes the first matching arm', 'switch (x) case 0 -> 10 case 1 -> 11 case _ -> 12', 'if (x == 0) 10 else (if (x == 1) 11 else 12)')
+    mk('switch without a matching arm raises', 'switch (x) case 0 -> 10', 'if (x == 0) 10 else throw 1')
+    mk('splat then default', 'f := \\...a, b = 9 -> [len(a), b]; [f(), f(x), f(x, y), f(x, y, z)]', '[[0, 9], [0, x], [1, y], [2, z]]')
+    mk('argument, splat, default', 'f := \\p, ...a, b = 9 -> [p, len(a), b]; [f(x), f(x, y), f(x, y, z)]', '[[x, 0, 9], [x, 0, y], [x, 1, z]]')
+    mk('splat then two defaults', 'f := \\...a, b = 8, c = 9 -> [len(a), b, c]; [f(), f(x), f(x, y), f(x, y, z)]', '[[0, 8, 9], [0, x, 9], [0, x, y], [1, y, z]]')
+    mk('lambda splat collects the rest', 'f := \\p, ...a -> [p, a]; [f(x), f(x, y, z)]', '[[x, []], [x, [y, z]]]')
+    return P
+def family_C09():
+    """dictionary / set operators == their definitions as loops over keys (keys symbolic: every equality pattern is a path)"""
+    reg = ('len', 'in', '&&', '||', '--', '||+', '|.', '-.', 'keys', 'values', 'items')
+    OBS = '; [len(r), if (x in r) r[x] else "no", if (y in r) r[y] else "no", if (z in r) r[z] else "no", if (5 in r) r[5] else "no"]'
+    A = '{x: 1, y: 2, z: 3}'
+    P = []
+    def mk(name, a, b): P.append((name, a + OBS, b + OBS, dict(registered=reg)))
+    for B in ('{y: 9}', '{y: 9, 5: 8}', '{z: 7, x: 6, 5: 8, 6: 0}', '{}'):
+        mk(f'&& keeps the left entries whose key is in the right {B}', f'r := {A} && {B}', f'a := {A}; b := {B}; r := {{}}; for (k <- keys(a)) (if (k in b) r[k] = a[k]); r')
+        mk(f'&& with the smaller dict on the left {B}', f'r := {B} && {A}', f'a := {B}; b := {A}; r := {{}}; for (k <- keys(a)) (if (k in b) r[k] = a[k]); r')
+        mk(f'|| is the right-biased union {B}', f'r := {A} || {B}', f'a := {A}; b := {B}; r := a; for (k <- keys(b)) r[k] = b[k]; r')
+        mk(f'-- removes the right keys {B}', f'r := {A} -- {B}', f'a := {A}; b := {B}; r := {{}}; for (k <- keys(a)) (if (k in b) null else r[k] = a[k]); r')
+        mk(f'||+ adds the values at common keys {B}', f'r := {A} ||+ {B}', f'a := {A}; b := {B}; r := a; for (k <- keys(b)) (if (k in r) r[k] += b[k] else r[k] = b[k]); r')
+    mk('|. adds a key with value null', f'r := {A} |. 5 |. y', f'r := {A}; r[5] = null; r[y] = null; r')
+    mk('-. removes a key', f'r := {A} -. y -. 5', f'a := {A}; r := {{}}; for (k <- keys(a)) (if (k == y or k == 5) null else r[k] = a[k]); r')
+    mk('assignment then lookup through an equal key', f'r := {{}}; r[x] = 1; r[y] = 2; r[z] += 10; r', f'r := {A}; r[z] = (if (z == y) 12 else (if (z == x) 11 else 13)); if (y == x) r[x] = (if (z == x) 12 else 2); r' if False else f'r := {{}}; r[x] = 1; r[y] = 2; r[z] = r[z] + 10; r')
+    return P
+def family_C10():
+    """the positional library functions == the corresponding index / slice expression, counts and indices symbolic"""
+    structs = {'first': Adt('First', None, []), 'last': Adt('Last', None, [])}
+    reg = ('len', 'take', 'drop', 'second', 'third', 'tail', 'butlast', 'uncons', 'unsnoc', 'only', '!!', '!?', '!%')
+    P = []
+    def mk(name, a, b, n=3, kind='list'): P.append((name + f' n={n} {kind}', a, b, dict(n=n, xs_kind=kind, registered=reg, structs=structs)))
+    for kind in ('list', 'stream'):
+        for n in (0, 1, 3):
+            if kind == 'list':
+                mk('take n == xs[:n]', 'take(xs, y)', 'xs[:y]', n, kind); mk('drop n == xs[n:]', 'drop(xs, y)', 'xs[y:]', n, kind)
+            else:
+                mk('take n == list(xs)[:n]', 'r := []; for (e <- take(xs, y)) r append= e; r', 'l := []; for (e <- xs) l append= e; l[:y]', n, kind)
+                mk('drop n == list(xs)[n:]', 'r := []; for (e <- drop(xs, y)) r append= e; r', 'l := []; for (e <- xs) l append= e; l[y:]', n, kind)
+            mk('first == xs[0]', 'first(xs)', 'xs[0]', n, kind); mk('last == xs[-1]', 'last(xs)', 'xs[-1]', n, kind)
+            mk('second == xs[1]', 'second(xs)', 'xs[1]', n, kind); mk('third == xs[2]', 'third(xs)', 'xs[2]', n, kind)
+            mk('!! == index', 'xs !! y', 'xs[y]', n, kind)
+            if kind == 'list': mk('!? == index or null (no wrap-around: DESIGN A.5)', 'xs !? y', 'if (0 <= y and y < len(xs)) xs[y] else null', n, kind)
+            if kind == 'list':
+                mk('tail == xs[1:]', 'tail(xs)', 'xs[1:]', n, kind); mk('butlast == xs[:-1]', 'butlast(xs)', 'xs[:-1]', n, kind)
+                mk('uncons == [xs[0], xs[1:]]', 'uncons(xs)', '[xs[0], xs[1:]]', n, kind); mk('unsnoc == [xs[:-1], xs[-1]]', 'unsnoc(xs)', '[xs[:-1], xs[-1]]', n, kind)
+                mk('only', 'only(xs)', 'if (len(xs) == 1) xs[0] else throw 1', n, kind)
+                mk('!% == cyclic index', 'xs !% y', 'k := y; while (k < 0) k += len(xs); while (k >= len(xs)) k -= len(xs); xs[k]', n, kind) if False else None
+    return [p for p in P if p]
+def family_C12():
+    """comparison-chain patterns and switch arm selection == the explicit test"""
+    structs = {'<': Adt('ComparisonOperator', None, [evalh.sbytes('<'), Seq([]), Opaque('cmpfn')])} if False else {}
+    P = []
+    def mk(name, a, b, n=3): P.append((name + f' n={n}', a, b, dict(n=n, registered=('len',), real_cmp=True)))
+    for n in (0, 1, 2, 3):
+        mk('two free slots around <', 'switch (xs) case a < b -> [a, b] case _ -> "no"', 'if (len(xs) == 2 and xs[0] < xs[1]) [xs[0], xs[1]] else "no"', n)
+        mk('literal then two slots', 'switch (xs) case 0 < a < b -> [a, b] case _ -> "no"', 'if (len(xs) == 2 and 0 < xs[0] and xs[0] < xs[1]) [xs[0], xs[1]] else "no"', n)
+    mk('one slot between literals', 'switch (x) case 1 < v < 9 -> v case _ -> "no"', 'if (1 < x and x < 9) x else "no"')
+    mk('one slot, one literal', 'switch (x) case _ < 3 -> "small" case _ -> "big"', 'if (x < 3) "small" else "big"')
+    return P
+
+FAMILIES = {'C04': family_C04, 'C17': family_C17, 'C13': family_C13, 'C01': family_C01, 'C05': family_C05, 'C09': family_C09, 'C10': family_C10, 'C12': family_C12}
 def items_for(prop): return [('pair', (prop, i)) for i in range(len(FAMILIES[prop]()))]
 def run_item(item, ob):
     prop, i = item[1]
